@@ -123,6 +123,7 @@ pub fn pdu(len: usize, pattern: u8) -> Vec<u8> {
 
 thread_local! {
     static LAST_PANIC: RefCell<Option<String>> = const { RefCell::new(None) };
+    static IN_CATCH: std::cell::Cell<bool> = const { std::cell::Cell::new(false) };
 }
 static HOOK: Once = Once::new();
 
@@ -145,6 +146,9 @@ pub fn install_panic_hook() {
             } else {
                 "?".into()
             };
+            if !IN_CATCH.with(|c| c.get()) {
+                eprintln!("MACHINERY-PANIC (outside the subject under test): {} ({})", loc, msg);
+            }
             LAST_PANIC.with(|p| *p.borrow_mut() = Some(format!("{} ({})", loc, msg)));
         }));
     });
@@ -182,7 +186,10 @@ impl Panicked {
 
 pub fn catch<T>(f: impl FnOnce() -> T) -> Result<T, Panicked> {
     LAST_PANIC.with(|p| *p.borrow_mut() = None);
-    match catch_unwind(AssertUnwindSafe(f)) {
+    let prev = IN_CATCH.with(|c| c.replace(true));
+    let r = catch_unwind(AssertUnwindSafe(f));
+    IN_CATCH.with(|c| c.set(prev));
+    match r {
         Ok(v) => Ok(v),
         Err(_) => {
             let s = LAST_PANIC.with(|p| p.borrow_mut().take()).unwrap_or_else(|| "? (?)".into());
